@@ -953,7 +953,7 @@ Lemma grun_inv c : forall ops1 t h flags hz0 ops0 t' h' flags' hz,
   Forall (wfE h') t' /\ Inv (map (absE h') t') (ops0 ++ ops1) /\ flags' = flags ++ naive_flags ops0 ops1.
 Proof.
   induction ops1 as [|[[a b] v] r IH]; intros t h flags hz0 ops0 t' h' flags' hz Hw HI Hr Hc Hg.
-  - unfold grun in Hr. cbn [irun] in Hr. injection Hr as <- <- <- _. cbn [naive_flags]. rewrite !app_nil_r. repeat split; assumption.
+  - unfold grun in Hr. cbn [irun] in Hr. injection Hr as <- <- <- _. cbn [naive_flags]. rewrite !app_nil_r. split; [exact Hw|split; [exact HI|reflexivity]].
   - unfold grun in Hr. cbn [irun] in Hr. fold (go_insert c t h a b v) in Hr.
     destruct (go_insert c t h a b v) as [|t1 h1 d1 hz1] eqn:Hins; [discriminate|]. fold grun in Hr.
     assert (Hz1 : hz = false -> hz1 = false).
@@ -968,7 +968,7 @@ Proof.
     rewrite Hrep in Hrep2. injection Hrep2 as <- Hd _.
     destruct (IH t1 h1 (flags ++ [d1]) (hz0 || hz1) (ops0 ++ [(a, b, v)]) t' h' flags' hz W1 HI2 Hr Hc Hg) as [W' [HI' Hf']].
     rewrite <- app_assoc in HI', Hf'. cbn [app] in HI'. split; [exact W'|]. split; [exact HI'|].
-    rewrite Hf'. cbn [naive_flags]. rewrite <- app_assoc. rewrite Hd. reflexivity.
+    rewrite Hf'. cbn [naive_flags app]. rewrite Hd. reflexivity.
 Qed.
 
 Lemma Inv_empty : Inv [] [].
@@ -1031,3 +1031,77 @@ Proof.
     destruct (iinsert heap slice hsingle happend hspare c t0 h0 a b v) as [|t1 h1 d1 hz1] eqn:Hins; [discriminate|].
     constructor; [|eapply IH; exact Hr]. cbn [valid_op]. unfold iinsert in Hins. destruct (Z.ltb_spec b a); [discriminate|assumption].
 Qed.
+
+(* ------------------------------------------------------------------ the code as it is: refutations *)
+Definition w_gap : list (Z * Z * nat) := [(0, 0, 1%nat); (1, 1, 2%nat); (0, 1, 3%nat)].
+Definition w_alias : list (Z * Z * nat) := [(0, 1, 1%nat); (0, 1, 2%nat); (0, 1, 3%nat); (1, 1, 4%nat); (0, 0, 5%nat)].
+
+Lemma entries_sorted_disjoint_refuted_lemma :
+  exists ops t h flags hz, Forall valid_op ops /\ go_run asis ops = Some (t, h, flags, hz)
+                           /\ ~ sorted_disjoint (ranges (go_entries t h)).
+Proof.
+  exists w_gap. eexists. eexists. eexists. eexists. split; [|split].
+  - repeat constructor; cbn; lia.
+  - vm_compute. reflexivity.
+  - vm_compute. intros [H _]. apply H. reflexivity.
+Qed.
+
+Lemma get_eq_naive_refuted_lemma :
+  exists ops t h flags hz q, Forall valid_op ops /\ go_run asis ops = Some (t, h, flags, hz)
+                             /\ values_of (go_get t h q) <> naive ops q.
+Proof.
+  exists w_gap. eexists. eexists. eexists. eexists. exists 0. split; [|split].
+  - repeat constructor; cbn; lia.
+  - vm_compute. reflexivity.
+  - vm_compute. discriminate.
+Qed.
+
+(* the second defect: entries stay sorted and disjoint, but a later append overwrites a value of
+   another entry through the shared backing array *)
+Lemma get_eq_naive_aliasing_refuted_lemma :
+  exists ops t h flags hz q, Forall valid_op ops /\ go_run asis ops = Some (t, h, flags, hz)
+                             /\ sorted_disjoint (ranges (go_entries t h))
+                             /\ values_of (go_get t h q) <> naive ops q.
+Proof.
+  exists w_alias. eexists. eexists. eexists. eexists. exists 1. split; [|split; [|split]].
+  - repeat constructor; cbn; lia.
+  - vm_compute. reflexivity.
+  - vm_compute. repeat split; discriminate.
+  - vm_compute. discriminate.
+Qed.
+
+Lemma insert_disjoint_flag_refuted_lemma :
+  exists ops t h flags hz, Forall valid_op ops /\ go_run asis ops = Some (t, h, flags, hz)
+                           /\ flags <> naive_flags [] ops.
+Proof.
+  exists (w_gap ++ [(0, 0, 4%nat)]). eexists. eexists. eexists. eexists. split; [|split].
+  - repeat constructor; cbn; lia.
+  - vm_compute. reflexivity.
+  - vm_compute. discriminate.
+Qed.
+
+Lemma intersect_examples :
+  (exists t h, go_run asis [(0, 9, 1%nat); (30, 39, 2%nat); (5, 34, 3%nat)]
+               = Some (t, h, [true; true; false], false)
+               /\ go_entries t h = [(0, 4, [1]%nat, 1%nat); (5, 9, [1; 3]%nat, 2%nat); (10, 29, [3]%nat, 1%nat); (30, 34, [2; 3]%nat, 2%nat); (35, 39, [2]%nat, 1%nat)])
+  /\ (exists t h fl, go_run asis w_gap = Some (t, h, fl, true))
+  /\ (exists t h fl, go_run asis w_alias = Some (t, h, fl, true)).
+Proof.
+  split; [|split].
+  - eexists. eexists. split; vm_compute; reflexivity.
+  - eexists. eexists. eexists. vm_compute. reflexivity.
+  - eexists. eexists. eexists. vm_compute. reflexivity.
+Qed.
+
+(* the three parts of the property for the repaired code, separately *)
+Lemma entries_sorted_disjoint_repaired_lemma : forall ops t h flags hz,
+  go_run repaired ops = Some (t, h, flags, hz) -> sorted_disjoint (ranges (go_entries t h)).
+Proof. intros ops t h flags hz Hr. eapply intersect_guarded_lemma; [exact Hr|left; reflexivity|left; reflexivity]. Qed.
+
+Lemma get_eq_naive_repaired_lemma : forall ops t h flags hz,
+  go_run repaired ops = Some (t, h, flags, hz) -> forall q, values_of (go_get t h q) = naive ops q.
+Proof. intros ops t h flags hz Hr. eapply intersect_guarded_lemma; [exact Hr|left; reflexivity|left; reflexivity]. Qed.
+
+Lemma insert_disjoint_flag_repaired_lemma : forall ops t h flags hz,
+  go_run repaired ops = Some (t, h, flags, hz) -> flags = naive_flags [] ops.
+Proof. intros ops t h flags hz Hr. eapply intersect_guarded_lemma; [exact Hr|left; reflexivity|left; reflexivity]. Qed.
